@@ -21,7 +21,7 @@ EXPLANATION = (
     "Bounds: n<=3 (quick) / n<=4, random and nested n<=5 (thorough); |values| <= 1e6; real arithmetic (tolerance 1e-9 relative). Outside: n>5, float rounding."
 )
 ASSUMPTIONS = ["coverage vector in [0,1]^n, |baseline|,|outcomes| <= 1e6", "floats modelled as reals; tolerance 1e-9 relative separates rounding from violations"]
-GROUP_TIMEOUT = {"quick": 600, "thorough": 3000}
+GROUP_TIMEOUT = {"quick": 600, "thorough": 9000}
 
 
 def _patches():
@@ -129,8 +129,10 @@ def weights_body(n, kind, explicit):
         for k in range(1, len(combos)):
             lemmas.append(("lemma_lo_%d" % k, env.ge(wc[k] * (base + oc[k] - lo), 0.0, 0)))
             lemmas.append(("lemma_hi_%d" % k, env.ge(wc[k] * (hi - base - oc[k]), 0.0, 0)))
-        lemmas.append(("lemma_lo_rest", env.ge((1.0 - totc) * (base - lo), 0.0, 0)))
-        lemmas.append(("lemma_hi_rest", env.ge((1.0 - totc) * (hi - base), 0.0, 0)))
+        # (1 - sum w)*(base - lo) >= 0 written as a comparison of the two products, so that the float replay compares quantities of
+        # the size of the outcomes (a weight sum of 1 + 1ulp otherwise gives -1e-10 against an absolute 0)
+        lemmas.append(("lemma_lo_rest", env.ge(base - lo, totc * (base - lo), 0)))
+        lemmas.append(("lemma_hi_rest", env.ge(hi - base, totc * (hi - base), 0)))
         for nm, c in lemmas:
             env.claim(nm, c, key="range_lemma")
         if env.symbolic:
@@ -287,7 +289,7 @@ def _demo():
     return _DEMO["p"]
 
 
-def _mk(name, body, bounds, timeout_ms=120000, max_paths=5000):
+def _mk(name, body, bounds, timeout_ms=120000, max_paths=60000):
     def g(tier, seed):
         return run_body(body, name, tier, seed, functions=_funcs(), bounds=bounds, stubs=["numpy -> vsym.shim.ShimNP (object arrays, If-term minimum/maximum/divide-where, argsort/argmax by comparison forks)"], timeout_ms=timeout_ms, max_paths=max_paths)
 
